@@ -88,8 +88,10 @@ func (g *Global) String() string {
 
 // Type returns the type of the global variable.
 func (g *Global) Type() types.Type {
-	// Cache type if not present or if the address space has been set since.
-	if g.Typ == nil || g.Typ.AddrSpace != g.AddrSpace {
+	// Cache type if not present or stale (AddrSpace or ContentType assigned since).
+	// Refreshing on one of the two fields only would make the result depend on
+	// when Type() happened to be called last.
+	if g.Typ == nil || g.Typ.AddrSpace != g.AddrSpace || g.Typ.ElemType == nil || !g.Typ.ElemType.Equal(g.ContentType) {
 		g.Typ = types.NewPointer(g.ContentType)
 		g.Typ.AddrSpace = g.AddrSpace
 	}
